@@ -87,6 +87,14 @@ pub fn verif_dir() -> PathBuf {
         .unwrap_or_else(|_| PathBuf::from("/verif"))
 }
 
+/// Where evidence and replay files go (default: the verif directory; the
+/// sensitivity tooling redirects it so registered evidence is not touched).
+pub fn out_dir() -> PathBuf {
+    std::env::var("VERIF_OUT_DIR")
+        .map(PathBuf::from)
+        .unwrap_or_else(|_| verif_dir())
+}
+
 pub const DEFAULT_SEED: u64 = 20260925;
 
 pub fn seed_from_env() -> u64 {
@@ -213,7 +221,14 @@ pub fn worker_main(spec: &WorkerSpec) -> i32 {
     let mut stats = Stats::new();
     let out = std::io::stdout();
     let mut done = 0u64;
+    let mut reported = 0usize;
+    let mut violating_runs = 0usize;
     for i in 0..spec.count {
+        if violating_runs >= 25 {
+            // the property is broken; more runs add nothing
+            stats.inc("worker_stopped_early_after_violations");
+            break;
+        }
         if spec.time_cap_s > 0 && start.elapsed().as_secs() >= spec.time_cap_s {
             break;
         }
@@ -229,8 +244,18 @@ pub fn worker_main(spec: &WorkerSpec) -> i32 {
         let (violations, digest) =
             crate::dispatch::exec_run(&spec.property, &spec.config, spec.seed, run, &mut stats);
         let mut l = out.lock();
+        if !violations.is_empty() {
+            violating_runs += 1;
+        }
         for v in violations {
-            let _ = writeln!(l, "V {run} {}", v.to_json().to_string());
+            // bounded volume: the first few violations of a worker are
+            // reported in full, the rest are only counted
+            if reported < 4 {
+                let _ = writeln!(l, "V {run} {}", v.to_json().to_string());
+                reported += 1;
+            } else {
+                stats.inc("violations_not_reported_in_full");
+            }
         }
         if spec.digests {
             let _ = writeln!(l, "E {run} {digest:016x}");
@@ -638,14 +663,19 @@ pub fn shrink(
 ) -> (J, usize) {
     let mut current = case.clone();
     let mut tried = 0usize;
+    // deterministic effort bound: candidates are charged by their size
+    // (number of operations), so long histories cannot stall the check
+    let mut cost = 0usize;
+    let cost_budget = 1_500_000usize;
     let mut progress = true;
-    while progress && tried < budget {
+    while progress && tried < budget && cost < cost_budget {
         progress = false;
         for cand in crate::dispatch::shrink_candidates(&current) {
-            if tried >= budget {
+            if tried >= budget || cost >= cost_budget {
                 break;
             }
             tried += 1;
+            cost += cand.arr_of("ops").map(|o| o.len()).unwrap_or(1).max(1);
             if test(&cand).as_deref() == Some(class) {
                 current = cand;
                 progress = true;
@@ -717,7 +747,7 @@ pub fn persist_violation(
         detail: last_detail,
         case: min_case,
     };
-    let dir = verif_dir().join("replays");
+    let dir = out_dir().join("replays");
     std::fs::create_dir_all(&dir).map_err(|e| e.to_string())?;
     let sig = crate::dispatch::signature(&minimal);
     let name = format!(
@@ -807,7 +837,7 @@ pub fn replay_main(path: &str) -> i32 {
 }
 
 pub fn write_evidence(property: &str, j: &J) -> Result<(), String> {
-    let dir = verif_dir().join("evidence");
+    let dir = out_dir().join("evidence");
     std::fs::create_dir_all(&dir).map_err(|e| e.to_string())?;
     let p = dir.join(format!("{property}.json"));
     std::fs::write(&p, j.to_pretty()).map_err(|e| format!("{}: {e}", p.display()))
